@@ -12,7 +12,8 @@ COORD_NAMES = ['set_result', 'set_exception', 'cancel', 'announce_done', '_run_d
                '_run_failure_cleanups', '_transition_to_non_done_state', 'set_status_to_queued',
                'set_status_to_running', '_run_callbacks']
 COORD = co.make_co(FU.TransferCoordinator, COORD_NAMES, FU)
-TASK = co.make_co(TK.Task, ['__call__', '_execute_main', '_log_and_set_exception'], TK)
+TASK = co.make_co(TK.Task, ['__call__', '_execute_main', '_log_and_set_exception', '_wait_on_dependent_futures',
+                            '_wait_until_all_complete', '_get_all_main_kwargs'], TK)
 SUBT = co.make_co(TK.SubmissionTask, ['_main'], TK)
 
 
@@ -215,6 +216,80 @@ def cancel_vs_submission(s0, s1, s2, s3, s4, s5, s6, s7):
     return None
 
 
+def task_dependencies(fail1, fail2, cancel, s0, s1, s2, s3, s4, s5, s6, s7):
+    """CO.deps (C03/C05/C07/C08): two part tasks and the final task of one transfer run on their own threads; the
+    final task depends on both part futures.  A part may fail (fail1/fail2), the user may cancel; every
+    statement-level interleaving of Task.__call__ (co-version from the source).  Oracle: the final step runs only with
+    every dependency finished and every part result present; a failed part or an effective cancel is never followed
+    by success; done is announced only after every spawned task finished; exactly once."""
+    c = _coord()
+    c.set_status_to_queued()
+    c.set_status_to_running()
+    log = []
+    futs = [co.CoFuture(), co.CoFuture()]
+    ran = {'done': 0, 'announce_early': False, 'cleanup': 0}
+
+    def on_done():
+        ran['done'] += 1
+        if not (futs[0].done() and futs[1].done()):
+            ran['announce_early'] = True
+    c.add_done_callback(on_done)
+    c.add_failure_cleanup(lambda: ran.__setitem__('cleanup', ran['cleanup'] + 1))
+    EP = ValueError('part failed')
+
+    class Part(TK.Task):
+        def _main(self, n, fail):
+            log.append(('part', n))
+            if fail:
+                raise EP
+            return 'part-%d' % n
+
+    class Final(TK.Task):
+        def _main(self, parts):
+            log.append(('final', list(parts), futs[0].done() and futs[1].done()))
+            return 'completed'
+    parts = [Part(c, main_kwargs={'n': 1, 'fail': fail1}), Part(c, main_kwargs={'n': 2, 'fail': fail2})]
+    final = Final(c, pending_main_kwargs={'parts': futs}, is_final=True)
+
+    def run_part(i):
+        r = yield from parts[i]._co___call__()
+        futs[i].finish(r)
+
+    def run_final():
+        yield from final._co___call__()
+
+    def user():
+        if cancel:
+            yield from c._co_cancel('m')
+        return
+        yield
+    sch = co.Scheduler([s0, s1, s2, s3, s4, s5, s6, s7], max_steps=400)
+    v = sch.run([run_part(0), run_part(1), run_final(), user()])
+    if v:
+        return 'deps: ' + v
+    fin = [e for e in log if e[0] == 'final']
+    if len(fin) > 1:
+        return 'deps: final step ran twice'
+    if fin:
+        if not fin[0][2]:
+            return 'deps: final step ran before every dependency had finished'
+        if None in fin[0][1]:
+            return 'deps: final step ran although a part produced no result (failed / skipped part)'
+    if not c.done() or not c._done_event.is_set():
+        return 'deps: transfer not done / not announced after all tasks finished'
+    if ran['done'] != 1:
+        return 'deps: done callbacks did not run exactly once'
+    if ran['announce_early']:
+        return 'deps: done announced while a spawned task was still running'
+    if (fail1 or fail2) and c.status == 'success':
+        return 'deps: success reported although a part failed'
+    if c.status == 'success' and not fin:
+        return 'deps: success without the final step'
+    if c.status != 'success' and ran['cleanup'] != 1:
+        return 'deps: failure cleanups did not run exactly once'
+    return None
+
+
 _C6 = 'c0: int, c1: int, c2: int, c3: int, c4: int, c5: int'
 _C6P = ['0 <= c%d <= 2' % i for i in range(6)]
 _S8 = 's0: int, s1: int, s2: int, s3: int, s4: int, s5: int, s6: int, s7: int'
@@ -236,6 +311,17 @@ OB_RACE = dict(id='CO.race', impl='coordinator_race', params=_S8,
                       'set_exception}, transfer started or not; 8 binary scheduling choices at statement level',
                encodes=['TransferCoordinator.set_result/set_exception/cancel/announce_done/_run_done_callbacks/'
                         '_run_failure_cleanups'], assumptions=['co-versions from the source'])
+OB_DEPS = dict(id='CO.deps', impl='task_dependencies', params=_S8,
+               cases=[(f1, f2, cn) for f1 in (False, True) for f2 in (False, True) for cn in (False, True)],
+               pre=['0 <= s%d <= 3' % i for i in range(8)],
+               splits=[['s0 == %d' % i, 's4 == 0', 's5 == 0', 's6 == 0', 's7 == 0'] for i in range(4)],
+               splits_thorough=[['s0 == %d' % i, 's1 == %d' % j, 's6 == 0', 's7 == 0'] for i in range(4) for j in range(4)],
+               timeout=(170, 1200),
+               bounds='2 part tasks + final task + user thread; parts fail or not, user cancels or not; 4 (thorough 6) '
+                      'symbolic scheduling choices in 0..3 at statement level (then the running thread continues)',
+               encodes=['Task.__call__', '_wait_on_dependent_futures', '_wait_until_all_complete',
+                        '_get_all_main_kwargs', '_execute_main', 'TransferCoordinator.set_exception/cancel/'
+                        'set_result/announce_done'], assumptions=['co-versions from the source'])
 OB_CVS = dict(id='CO.cancel-vs-submission', impl='cancel_vs_submission', params=_S8, pre=_S8P,
               splits=[['s0 == 0'], ['s0 == 1']], timeout=(170, 900),
               bounds='cancel() racing Task.__call__ / SubmissionTask._main, 8 binary scheduling choices',
